@@ -132,7 +132,7 @@ func collectUnits(prog *Program, prop string) []*unit {
 					if ap.Calls && o.Kind == "nocall" {
 						ok = true
 					}
-					if o.Kind == "unverified-callee" {
+					if o.Kind == "unverified-callee" || o.Kind == "spawn" {
 						ok = true
 					}
 				}
@@ -384,6 +384,15 @@ func cmdCheck(args []string) int {
 				// what happens there, so what was proved about the caller no longer covers its behaviour
 				r.Status = "violated-unverified-callee"
 				violate(o.Name, "a function under contract for this property now calls "+o.Anchor+", a function of the module without a contract that it did not call on the committed baseline: its effects are outside the proof", "no-failing-input-found", o, vc)
+				reports = append(reports, r)
+				continue
+			}
+			if o.Kind == "spawn" && base != nil && !inBase[o.Name] && !*writeBaseline {
+				// a function under contract now starts a goroutine it did not start when the baseline was
+				// recorded: what that goroutine does is no longer ordered with the rest of the function,
+				// so the sequential contracts proved about it no longer describe its behaviour
+				r.Status = "violated-new-goroutine"
+				violate(o.Name, "a function under contract for this property now starts a goroutine ("+o.Anchor+") that it did not start on the committed baseline: the work moved there is no longer ordered with the rest of the function, which the sequential contracts rely on", "no-failing-input-found", o, vc)
 				reports = append(reports, r)
 				continue
 			}
